@@ -101,7 +101,22 @@ ASSUMPTIONS = [
     "that leave the state untouched or that the model can follow (orphaned "
     "subscription after restart)",
 ]
-SENSITIVITY = []   # filled below (kept at the end of the module)
+SENSITIVITY = [
+    # each applied alone to pywbem/_subscription_manager.py of a scratch
+    # worktree that already had the three proposed fixes; quick tier, seed 1
+    'remove_server() not deleting the owned filters -> history/store:rm_server:instance-that-should-be-deleted-still-exists:filter (also :rm_all:, :ctx_exit:, idpairs/store:scenario:...)',
+    "ownership by Name.startswith('pywbem...:' + id) instead of the anchored pattern -> history/owned-list:add_server:dest:claims-instance-of-other-manager, ...:claims-perm-instance, ...:claims-foreign-instance (same for filter; idpairs too)",
+    '_create_subscription() not appending to the owned list -> history/owned-list:add_subs:sub:lacks-own-instance, history/outcome:add_subscriptions:expected-ok-got-CIMError11',
+    'permanent subscription on an owned destination no longer refused -> history/outcome:add_subscriptions:expected-ValueError-got-ok',
+    'remove_destinations() not updating the local list (path compared with `is`) -> history/owned-list:rm_dests:dest:claims-unknown-instance (1 hit: only visible after a restart)',
+    'discovery: subscription owned only if its filter is owned -> history/owned-list:add_server:sub:lacks-own-instance, idpairs/owned-list:scenario:sub:lacks-own-instance',
+    "discovery pattern ':.*$' instead of ':[^:]*$' -> history/owned-list:add_server:filter:claims-perm-instance, ...:dest:claims-perm-instance, idpairs/owned-list:add_server:filter:claims-perm-instance",
+    'owned-destination reuse ignoring PersistenceType -> history/add_dest:Name-is-not-the-documented-marker (now reported as add_dest:returned-an-existing-instance-instead-of-creating-one)',
+    'discovery patterns compiled with re.I -> history/owned-list:add_server:dest:claims-instance-of-other-manager, idpairs/owned-list:add_server:dest:claims-instance-of-other-manager',
+    'remove_subscriptions() not updating the local list -> history/owned-list:rm_subs:sub:claims-unknown-instance',
+    "filter marker built as 'pywbemfilter:<filter id>:<manager id>' -> history/add_filter:Name-is-not-the-documented-marker, idpairs/add_filter:Name-is-not-the-documented-marker",
+    '(unchanged tree) manager ID not escaped in the discovery patterns -> history/discovery:manager-id-interpreted-as-regex, idpairs/discovery:manager-id-interpreted-as-regex; gone with /tmp/proposed_fixes/C18-manager-id-regex-escape.diff',
+]
 
 INTEROP = 'interop'
 DEST_CN = 'CIM_ListenerDestinationCIMXML'
@@ -699,16 +714,16 @@ class World:
             self.fail('add_%s:result-is-not-an-instance-with-path' % kind,
                       repr(inst))
             return False
+        if pkey(inst.path) in self.recs[si]:
+            self.fail('add_%s:returned-an-existing-instance-instead-of-'
+                      'creating-one' % kind, str(inst.path))
+            return False
         if inst.get('Name') != name or \
                 inst.path.keybindings.get('Name') != name:
             self.fail('add_%s:Name-is-not-the-documented-marker' % kind,
                       'expected %r, got %r / %r' %
                       (name, inst.get('Name'),
                        inst.path.keybindings.get('Name')))
-            return False
-        if pkey(inst.path) in self.recs[si]:
-            self.fail('add_%s:returned-an-existing-instance' % kind,
-                      str(inst.path))
             return False
         return True
 
